@@ -305,14 +305,14 @@ Section A.
   (* __call__ with the (text, module) key and switching texts kept out of the parse cache *)
   Lemma run_cached_correct st t :
     wf st ->
-    let r := run_cached true clear_on_set true parse true st t in
+    let r := run_cached true clear_on_set true parse true true st t in
     wf (snd r) /\
     (fst r, (cur (snd r), vars (snd r))) = eval_ref parse (cur st, vars st) t.
   Proof.
     intros W. unfold run_cached, eval_ref, key_of in *. cbn [fst snd] in *.
     change (if true then cur st else 0) with (cur st) in *.
     set (k := (t, cur st)) in *.
-    destruct (plookup k (pcache st)) as [e|] eqn:EP.
+    destruct (plookup k (pcache st)) as [e|] eqn:EP; cbv beta iota.
     - destruct (proj1 W _ _ EP) as [He Hn]. subst e.
       destruct (run_tree_correct k st W) as (Wr & Cr & Er). cbn zeta in *.
       split; [exact Wr|].
@@ -341,8 +341,8 @@ Section A.
 
   Lemma history_correct h : forall st,
     wf st ->
-    wf (state_after true clear_on_set true parse true st h) /\
-    (cur (state_after true clear_on_set true parse true st h), vars (state_after true clear_on_set true parse true st h))
+    wf (state_after true clear_on_set true parse true true st h) /\
+    (cur (state_after true clear_on_set true parse true true st h), vars (state_after true clear_on_set true parse true true st h))
       = ref_after parse (cur st, vars st) h.
   Proof.
     induction h as [|t r IH]; intros st W; cbn [state_after ref_after] in *; [split; [exact W|reflexivity]|].
@@ -352,8 +352,8 @@ Section A.
   Qed.
 
   Lemma cache_transparent s0 h t :
-    let st := state_after true clear_on_set true parse true (fresh s0) h in
-    let r := run_cached true clear_on_set true parse true st t in
+    let st := state_after true clear_on_set true parse true true (fresh s0) h in
+    let r := run_cached true clear_on_set true parse true true st t in
     (fst r, (cur (snd r), vars (snd r))) = eval_ref parse (cur st, vars st) t
     /\ (cur st, vars st) = ref_after parse (0, s0) h.
   Proof.
